@@ -51,6 +51,13 @@ CONSTANTS = {
          r"let to_decode = buf\.len\(\)\.min\(self\.bytes_remaining\);[\s\S]{0,200}?self\.in_progress\.sync\[offset\.\.offset \+ to_decode\]\s*\.copy_from_slice\(&buf\[\.\.to_decode\]\);\s*self\.bytes_remaining -= to_decode;\s*buf = &buf\[to_decode\.\.\];\s*if self\.bytes_remaining == (\d+) \{", "int"),
         ("VLQ_ZIGZAG_SHIFT", "arrow-avro/src/reader/vlq.rs",
          r"return Ok\(Some\(\(val >> (\d+)\) as i64 \^ -\(\(val & 1\) as i64\)\)\);", "int"),
+        # Avro streaming Decoder::decode / handle_fingerprint: statement order after a frame prefix
+        ("AVROD_PREFIX_ARM", "arrow-avro/src/reader/mod.rs",
+         r"match self\.handle_prefix\(&data\[total_consumed\.\.\]\)\? \{\s*Some\((\d+)\) => break, // Insufficient bytes\s*Some\(n\) => \{\s*total_consumed \+= n;\s*self\.apply_pending_schema_if_batch_empty\(\);\s*self\.awaiting_body = true;\s*\}\s*None => \{", "int"),
+        ("AVROD_LOOP_HEAD", "arrow-avro/src/reader/mod.rs",
+         r"while total_consumed < data\.len\(\) && self\.remaining_capacity > (\d+) \{\s*if self\.awaiting_body \{\s*match self\.active_decoder\.decode\(&data\[total_consumed\.\.\], 1\) \{\s*Ok\(n\) => \{\s*self\.remaining_capacity -= 1;\s*total_consumed \+= n;\s*self\.awaiting_body = false;\s*continue;", "int"),
+        ("AVROD_SWITCH_FORCES_FLUSH", "arrow-avro/src/reader/mod.rs",
+         r"self\.pending_schema = Some\(\(new_fingerprint, new_decoder\)\);[\s\S]{0,260}?if self\.remaining_capacity < self\.batch_size \{\s*self\.remaining_capacity = (\d+);\s*\}", "int"),
         # Avro block: 16 byte sync marker
         ("AVRO_SYNC_LEN", "arrow-avro/src/reader/block.rs", r"pub\s+sync:\s*\[u8;\s*(\d+)\]", "int"),
         ("AVRO_SYNC_REMAINING", "arrow-avro/src/reader/block.rs", r"if\s+self\.bytes_remaining\s*==\s*0\s*\{\s*self\.bytes_remaining\s*=\s*(\d+);", "int"),
